@@ -116,7 +116,7 @@ func (idx *Index) GetEntry(path []byte) (int, *Entry, bool) {
 func (idx *Index) GetEntriesByDirectory(dirName string) []*Entry {
 	var entries []*Entry
 
-	dirRegexp := regexp.MustCompile(fmt.Sprintf(`%s\/.+`, dirName))
+	dirRegexp := regexp.MustCompile(fmt.Sprintf(`^%s\/.+`, regexp.QuoteMeta(dirName)))
 	for _, entry := range idx.Entries {
 		if dirRegexp.Match(entry.Path) {
 			entries = append(entries, entry)
@@ -131,7 +131,7 @@ func (idx *Index) IsRegisteredAsDirectory(dirName string) bool {
 		return false
 	}
 
-	dirRegexp := regexp.MustCompile(fmt.Sprintf(`%s\/.+`, dirName))
+	dirRegexp := regexp.MustCompile(fmt.Sprintf(`^%s\/.+`, regexp.QuoteMeta(dirName)))
 
 	left := 0
 	right := int(idx.EntryNum)
